@@ -115,10 +115,19 @@ func AcceptorSession(cfg Cfg, h simplefixgo.AcceptorHandler, cs session.CounterS
 // caller: an acceptor application builds one session.Opts and uses it for the
 // session of every connection.
 func AcceptorSessionOpts(opts *session.Opts, cfg Cfg, h simplefixgo.AcceptorHandler, cs session.CounterStorage, ms session.MessageStorage) (*session.Session, error) {
-	closeTimeout := time.Duration(cfg.CloseTimeoutMs) * time.Millisecond
-	s, err := session.NewAcceptorSession(opts, h,
-		&session.LogonSettings{LogonTimeout: 30 * time.Second, CloseTimeout: closeTimeout,
-			HeartBtLimits: &session.IntLimits{Min: cfg.HBMin, Max: cfg.HBMax}},
+	return AcceptorSessionShared(opts, AcceptorSettings(cfg), cfg, h, cs, ms)
+}
+
+// AcceptorSettings are the settings an acceptor application passes to NewAcceptorSession.
+func AcceptorSettings(cfg Cfg) *session.LogonSettings {
+	return &session.LogonSettings{LogonTimeout: 30 * time.Second, CloseTimeout: time.Duration(cfg.CloseTimeoutMs) * time.Millisecond,
+		HeartBtLimits: &session.IntLimits{Min: cfg.HBMin, Max: cfg.HBMax}}
+}
+
+// AcceptorSessionShared takes both the options and the settings object from the
+// caller, who may hand the same ones to the session of every connection.
+func AcceptorSessionShared(opts *session.Opts, settings *session.LogonSettings, cfg Cfg, h simplefixgo.AcceptorHandler, cs session.CounterStorage, ms session.MessageStorage) (*session.Session, error) {
+	s, err := session.NewAcceptorSession(opts, h, settings,
 		func(req *session.LogonSettings) error {
 			if cfg.LogonCbNs > 0 {
 				time.Sleep(time.Duration(cfg.LogonCbNs)) // the application's credential check takes time
